@@ -19,14 +19,26 @@ def _level_name(base, n):
 
 
 def gen_metrics(rnd, n_einsums=None, force=None):
-    if n_einsums in (None, 1) and force is None and rnd.random() < 0.12:
-        return gen_merger(rnd)
-    if n_einsums in (None, 2) and force is None and rnd.random() < 0.08:
+    # families: chosen by `force` (deterministic, used by the checks) or at random
+    if force == "merger-static":
+        return gen_merger(rnd, dynamic=False)
+    if force == "merger-dynamic":
+        return gen_merger(rnd, dynamic=True)
+    if force == "lf-shared":
         return gen_lf_shared(rnd)
-    if n_einsums in (None, 1) and force is None and rnd.random() < 0.06:
+    if force == "lf-affine":
         return gen_lf_affine(rnd)
-    if n_einsums in (None, 1) and force is None and rnd.random() < 0.18:
+    if force == "part":
         return gen_part_metrics(rnd)
+    if force is None:
+        if n_einsums in (None, 1) and rnd.random() < 0.12:
+            return gen_merger(rnd)
+        if n_einsums in (None, 2) and rnd.random() < 0.08:
+            return gen_lf_shared(rnd)
+        if n_einsums in (None, 1) and rnd.random() < 0.06:
+            return gen_lf_affine(rnd)
+        if n_einsums in (None, 1) and rnd.random() < 0.18:
+            return gen_part_metrics(rnd)
     pool = ["M", "N", "K", "J"]
     nr = rnd.randint(2, 3)
     perm = rnd.sample(pool, nr)           # global rank precedence (concordant everywhere)
@@ -326,7 +338,7 @@ def plain_of(spec):
     return s
 
 
-def gen_merger(rnd):
+def gen_merger(rnd, dynamic=None):
     """Merger family (gamma-like): an input whose partitioned ranks must be
     swizzled for the loop order, with a Merger bound to exactly that swizzle
     (init-ranks -> final-ranks).  Static (shape) or dynamic (occupancy) split."""
@@ -344,7 +356,8 @@ def gen_merger(rnd):
         rnd.shuffle(facs)
     decl["Z"] = out_ranks
     e = Einsum(_acc("Z", out_ranks), [Term("times", facs)])
-    dynamic = rnd.random() < 0.5
+    if dynamic is None:
+        dynamic = rnd.random() < 0.5
     sz = rnd.randint(2, 4)
     part = "uniform_occupancy(A.%d)" % sz if dynamic else "uniform_shape(%d)" % sz
     lo = [X, K + "1", Y, K + "0"]
